@@ -236,3 +236,83 @@ def layout_reach(k: int, gap1: int, gap2: int, nl1: bool, nl2: bool, c1: int, c2
     post: False
     """
     return _layout_at(k, gap1, gap2, nl1, nl2, c1, c2, 2)
+
+
+# ---- the stage after tokens_to_string: the AST constructors that take the raw text (found by reflection) must store it unchanged (up to white
+# space outside the tokens); the text is `select <symbolic lexeme> x` (or with a second statement after a `;`)
+def _constructors():
+    import inspect
+    import mindsdb_sql.parser.dialects.mindsdb as M
+    from mindsdb_sql.parser import ast as A
+    from mindsdb_sql.parser.ast.base import ASTNode
+    out = []
+    pool = dict(vars(A))
+    pool.update(vars(M))
+    for name in sorted(pool):
+        c = pool[name]
+        if not (inspect.isclass(c) and issubclass(c, ASTNode)):
+            continue
+        chain = [k for k in c.__mro__ if k is not object and '__init__' in vars(k)]
+        params = {}
+        for k in reversed(chain):
+            params.update(inspect.signature(k.__init__).parameters)
+        for q in [p_ for p_ in params if p_ in ('query_str', 'if_query_str', 'query') and (p_ != 'query' or params[p_].annotation is str)]:
+            req = [p_ for p_, v in params.items() if v.default is inspect._empty and p_ not in ('self', 'args', 'kwargs', q) and v.kind in (v.POSITIONAL_OR_KEYWORD, v.KEYWORD_ONLY)]
+            out.append((name, c, q, req))
+    return out
+
+
+CONSTRUCTORS = _constructors()
+
+
+def stored_by(k, text):
+    from mindsdb_sql.parser import ast as A
+    name, c, q, req = CONSTRUCTORS[k]
+    kw = {r: A.Identifier(parts=['x']) for r in req}
+    if q == 'if_query_str':
+        kw['query_str'] = 'select 1'
+    kw[q] = text
+    node = c(**kw)
+    return getattr(node, q)
+
+
+def _outside(text, s):
+    i = text.find(s)
+    return None if i < 0 else ' '.join((text[:i] + ' ' + text[i + len(s):]).split())
+
+
+def _stored_ok(k, s, two):
+    k = _ci(k, len(CONSTRUCTORS) - 1)
+    text = 'select ' + s + ' x' + ('; select 2' if two else '')
+    stored = stored_by(k, text)
+    return isinstance(stored, str) and s in stored and _outside(stored, s) == _outside(text, s)
+
+
+def stored_quote_string(s: str, k: int, two: bool) -> bool:
+    """
+    pre: 0 <= k < len(CONSTRUCTORS)
+    pre: len(s) <= N + 1
+    pre: read_quoted_mindsdb(s, "'") is not None
+    post: _
+    """
+    return _stored_ok(k, s, two)
+
+
+def stored_dquote_string(s: str, k: int, two: bool) -> bool:
+    """
+    pre: 0 <= k < len(CONSTRUCTORS)
+    pre: len(s) <= N + 1
+    pre: read_quoted_mindsdb(s, '"') is not None
+    post: _
+    """
+    return _stored_ok(k, s, two)
+
+
+def stored_reach(s: str, k: int, two: bool) -> bool:
+    """
+    pre: 0 <= k < len(CONSTRUCTORS)
+    pre: len(s) <= N + 1
+    pre: read_quoted_mindsdb(s, "'") is not None
+    post: False
+    """
+    return _stored_ok(k, s, two)
